@@ -2,9 +2,17 @@
 //! `Methods::raw_json_request` / `Methods::subscribe` create (capacity = buf_size), no server, no socket.
 //! Same line protocol as modelrun/sinkbp_driver.ml (model: coq/Model/SinkQueue.v):
 //!
-//!     <cap> <sid|-> <raw|sub> | op op op ...
+//!     <cap> <-|sid|s<hex>> <raw|sub> | op op op ...
 //!
-//!   cap   capacity of the channel (>= 1);  sid is ignored here (the model needs it, see below)
+//!   cap   capacity of the channel (>= 1)
+//!   sid   `-` or a decimal number: ignored here, the id is drawn by the library (the model needs it, see below);
+//!         `s<hex>`: a STRING subscription id, given as the hex of its UTF-8 text (any characters: quotes, backslashes,
+//!         control characters, non-ASCII, empty).  Only with `raw`.  `Methods::raw_json_request` / `subscribe` fix the
+//!         id provider (RandomIntegerIdProvider), so for a string id the harness does what `Methods::inner_call`
+//!         does with its own `SubscriptionState { id_provider: &FixedId(..), .. }` (what a server built with
+//!         `ServerConfig::builder().set_id_provider(..)` hands to the callback): a bounded `mpsc::channel(cap)`,
+//!         `MethodSink::new(tx)`, the `MethodCallback::Subscription` of "sub" is awaited, the answer to the
+//!         subscribe call is taken out of the channel, the harness's own sender is dropped.
 //!   raw   the subscription is started with `raw_json_request("{..\"method\":\"sub\"..}", cap)`; the receiving end
 //!         is the `mpsc::Receiver<Box<RawValue>>` it returns, so every frame is seen byte for byte
 //!   sub   the subscription is started with `Methods::subscribe("sub", EmptyServerParams::new(), cap)`; the receiving
@@ -17,18 +25,22 @@
 //!         r                         the receiver takes the next frame if there is one (never waits)
 //!         c                         the receiver closes the channel (`Receiver::close` / `Subscription::close`)
 //!
-//! Output: `id=<subscription id> tok tok ...`, one token per op:
+//! Output: `id=<subscription id> tok tok ...`, one token per op (string id: `id=j<hex of the "result" text of the
+//!         accepting response>`, i.e. the id as the library serialised it for the subscriber):
 //!         ok | full=<m> | timeout=<m> | closed=<m> | wouldblock | na      for a send / re-send; <m> is the message
 //!                                   that was handed back: C<hex of json> (Complete) or N<hex of raw> (NeedsData),
 //!                                   read off the Debug output of SubscriptionMessage (its field is crate-private)
 //!         F<hex of frame> (raw) | I<sid>:<hex of result> (sub) | E (sub: frame not decodable) | empty | end   for r
 //!         done                      for c
-//!     or  ?<what> / PANIC <hex>     when the harness itself is in trouble
+//!     or  ?<what>                   when the harness itself is in trouble
+//!     or  PANIC <hex of message>    something panicked while the case ran: the harness thread, or a task of the
+//!                                   library / the handler (seen by the panic hook; such a case reports nothing else)
 //! `wouldblock`: `send` did not finish within 25 ms; the future is dropped (that consumes the message).
 //! `na`: the slot holds nothing.
 //!
-//! The subscription id comes from RandomIntegerIdProvider (fixed in Methods::inner_call), so it is REPORTED
-//! (`id=`) and the python glue passes the same id to the model on its input line.
+//! A numeric subscription id comes from RandomIntegerIdProvider (fixed in Methods::inner_call), so it is REPORTED
+//! (`id=`) and the python glue passes the same id to the model on its input line.  A string id is configured by the
+//! case line on both sides; `id=j..` then shows how the accepting response spelled it.
 //! The handler is remote-controlled: it accepts the pending sink and then executes the commands the script sends it
 //! over a channel, until the script ends (then it returns `()`, i.e. no closing notification).
 //! What accepting does to the channel: `PendingSubscriptionSink::accept` puts the answer to the subscribe call INTO
@@ -44,14 +56,29 @@ use futures_util::FutureExt;
 use jrv::*;
 use jsonrpsee_core::EmptyServerParams;
 use jsonrpsee_core::server::{
-	DisconnectError, RpcModule, SendTimeoutError, Subscription, SubscriptionMessage, SubscriptionSink, TrySendError,
+	BoundedSubscriptions, ConnectionId, DisconnectError, Extensions, MethodCallback, MethodSink, RpcModule, SendTimeoutError,
+	Subscription, SubscriptionMessage, SubscriptionSink, SubscriptionState, TrySendError,
 };
+use jsonrpsee_core::traits::IdProvider;
+use jsonrpsee_types::{Id, Params, SubscriptionId};
 use serde_json::value::RawValue;
 use tokio::sync::mpsc;
 
 const SEND_TIMEOUT: Duration = Duration::from_millis(30);
 const BLOCK_WAIT: Duration = Duration::from_millis(25);
 const CMD_WAIT: Duration = Duration::from_secs(5);
+
+/// First panic message seen by the hook while a case runs (panics of spawned tasks never reach the harness thread).
+static PANIC_MSG: Mutex<Option<String>> = Mutex::new(None);
+
+/// The custom `IdProvider` of the case line: every subscription gets exactly this string.
+#[derive(Debug)]
+struct FixedId(String);
+impl IdProvider for FixedId {
+	fn next_id(&self) -> SubscriptionId<'static> {
+		SubscriptionId::Str(self.0.clone().into())
+	}
+}
 
 #[derive(Clone, Copy, Debug)]
 enum Path {
@@ -193,6 +220,15 @@ fn num(s: &str) -> Option<u64> {
 	(!s.is_empty() && s.len() <= 18 && s.bytes().all(|c| c.is_ascii_digit())).then(|| s.parse().ok())?
 }
 
+/// lower-case hex of a UTF-8 text -> the text
+fn hex_text(h: &str) -> Option<String> {
+	let b = h.as_bytes();
+	if b.len() % 2 != 0 || !b.iter().all(|c| matches!(c, b'0'..=b'9' | b'a'..=b'f')) {
+		return None;
+	}
+	String::from_utf8(unhex(h)).ok()
+}
+
 fn parse_op(t: &str) -> Option<Op> {
 	let path = |c: u8| match c {
 		b's' => Some(Path::Send),
@@ -219,18 +255,54 @@ async fn run_case(line: &str) -> String {
 		return "?bad-line".into();
 	};
 	let head: Vec<&str> = head.split_whitespace().collect();
-	let (cap, mode) = match head[..] {
-		[cap, _sid, mode @ ("raw" | "sub")] => match num(cap) {
-			Some(c) if (1..=1_000_000).contains(&c) => (c as usize, mode),
+	let (cap, sid_arg, mode) = match head[..] {
+		[cap, sid, mode @ ("raw" | "sub")] => match num(cap) {
+			Some(c) if (1..=1_000_000).contains(&c) => (c as usize, sid, mode),
 			_ => return "?bad-line".into(),
 		},
 		_ => return "?bad-line".into(),
+	};
+	let str_id: Option<String> = match sid_arg.strip_prefix('s') {
+		Some(h) => match hex_text(h) {
+			Some(s) if mode == "raw" => Some(s),
+			_ => return "?bad-line".into(),
+		},
+		None if sid_arg == "-" || num(sid_arg).is_some() => None,
+		None => return "?bad-line".into(),
 	};
 	let Some(ops) = script.split_whitespace().map(parse_op).collect::<Option<Vec<Op>>>() else {
 		return "?bad-line".into();
 	};
 	let (module, cmd_tx, mut res_rx) = module();
-	let (sid, mut rx) = if mode == "raw" {
+	let (sid, mut rx) = if let Some(s) = str_id {
+		// Methods::inner_call, with the id provider of the case line
+		let Some(MethodCallback::Subscription(cb)) = module.method("sub").cloned() else {
+			return "?no-sub".into();
+		};
+		let (tx, mut rx) = mpsc::channel::<Box<RawValue>>(cap);
+		let Some(permit) = BoundedSubscriptions::new(1).acquire() else { return "?no-permit".into() };
+		let ids = FixedId(s);
+		let state = SubscriptionState { conn_id: ConnectionId(0), id_provider: &ids, subscription_permit: permit };
+		let fut = cb(Id::Number(0), Params::new(Some("[]")), MethodSink::new(tx.clone()), state, Extensions::new());
+		let resp = match tokio::time::timeout(CMD_WAIT, fut).await {
+			Ok(r) => r,
+			Err(_) => return "?subscribe-timeout".into(),
+		};
+		match tokio::time::timeout(CMD_WAIT, rx.recv()).await {
+			Ok(Some(_)) => {}
+			_ => return "?subscribe-no-answer".into(),
+		}
+		let is_success = resp.is_success();
+		let (rp, notif, _) = resp.into_parts();
+		if let Some(n) = notif {
+			n.notify(is_success);
+		}
+		drop(tx);
+		match serde_json::from_str::<SubOk>(rp.get()) {
+			Ok(ok) => (format!("j{}", hex(ok.result.get().as_bytes())), Rx::Raw(rx)),
+			Err(_) => return format!("?subscribe-answer:{}", hex(rp.get().as_bytes())),
+		}
+	} else if mode == "raw" {
 		let req = r#"{"jsonrpc":"2.0","id":0,"method":"sub","params":[]}"#;
 		match tokio::time::timeout(CMD_WAIT, module.raw_json_request(req, cap)).await {
 			Ok(Ok((resp, rx))) => match serde_json::from_str::<SubOk>(resp.get()) {
@@ -278,9 +350,19 @@ async fn run_case(line: &str) -> String {
 	out.join(" ")
 }
 
+fn panic_text(p: &(dyn std::any::Any + Send)) -> String {
+	p.downcast_ref::<&str>().map(|s| s.to_string()).or_else(|| p.downcast_ref::<String>().cloned()).unwrap_or_default()
+}
+
 fn main() {
-	std::panic::set_hook(Box::new(|_| {}));
+	std::panic::set_hook(Box::new(|info| {
+		let mut g = PANIC_MSG.lock().unwrap_or_else(|e| e.into_inner());
+		if g.is_none() {
+			*g = Some(panic_text(info.payload()));
+		}
+	}));
 	for_each_line(|l| {
+		*PANIC_MSG.lock().unwrap_or_else(|e| e.into_inner()) = None;
 		let r = std::panic::catch_unwind(std::panic::AssertUnwindSafe(|| {
 			let rt = tokio::runtime::Builder::new_current_thread().enable_all().build().unwrap();
 			let r = rt.block_on(async {
@@ -289,9 +371,10 @@ fn main() {
 			rt.shutdown_timeout(Duration::from_millis(200));
 			r
 		}));
-		r.unwrap_or_else(|e| {
-			let msg = e.downcast_ref::<&str>().map(|s| s.to_string()).or_else(|| e.downcast_ref::<String>().cloned());
-			format!("PANIC {}", hex(msg.unwrap_or_default().as_bytes()))
-		})
+		let r = r.unwrap_or_else(|e| format!("PANIC {}", hex(panic_text(&*e).as_bytes())));
+		match PANIC_MSG.lock().unwrap_or_else(|e| e.into_inner()).take() {
+			Some(msg) if !r.starts_with("PANIC") => format!("PANIC {}", hex(msg.as_bytes())),
+			_ => r,
+		}
 	});
 }
